@@ -77,6 +77,21 @@ CLAIMED = {
         design='§6 C07, §5 model E',
         note=COMMON_NOTE + 'The correspondence samples phase-synchronised schedules (the harness waits for queue quiescence); queue.Queue FIFO/thread-safety is CPython behaviour.',
         technique='Lean 4 invariant proof over label lists + differential correspondence (hand-written model) + real-child decoy runs'),
+    'C18': dict(
+        text=('Theorems over model I (monitor thread of ThreadDoneCallback split at every access to shared state, the two locked blocks atomic, '
+              'the exit check reading the closed flag before the active set; TaskDoneCallback with asyncio done-callback semantics) for every '
+              'label list, i.e. every interleaving of thread starts/deaths/registrations with the monitor\'s steps and close(): a callback runs '
+              'only for a registered thread that has ended; never more callbacks than registrations (at most one for a thread registered once); a '
+              'registered thread is never forgotten; with all registrations preceding close(), close() returns only after the monitor exited '
+              'with an empty active set and every registered thread has ended and been called back; a callback\'s exception is collected and '
+              're-raised by close(); the monitor is never stuck; tasks likewise. Tied to /repo by trace acceptance under forced preemption '
+              '(sys.monitoring INSTRUCTION events) of the monitor before every bytecode offset of _monitor and of a registering thread before '
+              'every offset of register, with another thread registering / ending / close() being called in the gap; TaskDoneCallback under the '
+              'permuting loop; plus an independent oracle.'),
+        design='§6 C18, §5 model I',
+        note=COMMON_NOTE + 'GIL switch points other than the forced ones are whatever CPython produces; registrations after close() are outside the '
+             'documented contract. Two defects found and fixed here: F-I1 (lost registration) and F-I2 (exit-check read order).',
+        technique='Lean 4 invariant proof over label lists (LTS) + trace-acceptance correspondence under bytecode-level forced preemption'),
 }
 
 REASON_TODO = 'check not built yet in this revision of /verif (planned, see DESIGN.md §6); not claimed until its theorems and correspondence exist'
